@@ -200,7 +200,7 @@ VALUES_R1 = {
 def float_lits():
     """R2 for the scanner model: TLC prints one literal per abstract class of a finished scan (VIEW)."""
     t0 = time.time()
-    out, rc = vlib.tlc("MC_FloatScan.tla", "MC_FloatScan.cfg", workers=min(8, vlib.NCPU), xmx="8g")
+    out, rc = vlib.tlc("MC_FloatScan.tla", "MC_FloatScan.cfg", workers=vlib.NCPU, xmx="8g")
     c = vlib.tlc_counts(out)
     if rc != 0 or c is None or "No error has been found" not in out:
         tail = "\n".join(l for l in out.splitlines() if "FLOATLIT" not in l)[-3000:]
